@@ -12,6 +12,8 @@
 #include <fcppt/impl/codecvt_type.hpp>
 #include <fcppt/optional/object_impl.hpp>
 #include <fcppt/config/external_begin.hpp>
+#include <algorithm>
+#include <cwchar>
 #include <iterator>
 #include <locale>
 #include <string>
@@ -76,14 +78,29 @@ fcppt::optional::object<std::basic_string<Out>> codecvt(
     case std::codecvt_base::error:
       return optional_return_type{};
     case std::codecvt_base::partial:
-      if (written == 0U)
+    {
+      auto const max_length{
+          static_cast<typename buffer_type::size_type>(fcppt::cast::to_unsigned(conv.max_length()))};
+
+      // No progress although a whole character would have fit: the input ends
+      // in the middle of a character. Returning what has been converted so
+      // far would silently truncate the result.
+      if (written == 0U && buf.write_size() >= max_length)
       {
-        return optional_return_type{return_type(buf.begin(), buf.end())};
+        return optional_return_type{};
       }
 
-      buf.resize_write_area(buf.read_size() * 2U);
+      // Make room for at least one character, otherwise a small buffer is never grown.
+      buf.resize_write_area(std::max(buf.read_size() * 2U, max_length));
       continue;
+    }
     case std::codecvt_base::ok:
+      // The facet may report ok while keeping an incomplete character in the state.
+      if (std::mbsinit(&state) == 0)
+      {
+        return optional_return_type{};
+      }
+
       return optional_return_type{return_type(buf.begin(), buf.end())};
     }
 
